@@ -3,3 +3,9 @@
 /venv/bin/python -c "import hypothesis" 2>/dev/null || \
   /venv/bin/pip install --no-index --find-links /opt/veriftools/wheels hypothesis
 /venv/bin/python -c "import hypothesis, hed; print('hypothesis', hypothesis.__version__, 'hed from', hed.__file__)"
+# Optional engine for the thorough tier of C02, C08, C15 (coverage-guided input choice). Best effort: without it those
+# parts generate nothing and say so in the evidence; every other part is unaffected.
+HERE=$(cd "$(dirname "$0")" && pwd)
+[ -d "$HERE/.deps/atheris" ] || /venv/bin/pip install -q --no-index --find-links /opt/veriftools/wheels \
+  --target "$HERE/.deps" atheris >/dev/null 2>&1 || echo "atheris not installed (coverage-guided parts will be empty)"
+exit 0
